@@ -184,14 +184,14 @@ SOLReader2<SOLHandler>::ReadSOLFile(
       if (!fread((char *)Options, sizeof(Long), 4, f))
         return ReportEarlyEof();
       nOpts = Options[0];
-      if (nOpts < 3 || nOpts > 9) {
+      if (nOpts < 0 || nOpts > 9) {
 bad_nOpts:
         serror(
-              "expected nOpts between 3 and 9; got %d: ",
+              "expected nOpts between 0 and 9; got %d: ",
               nOpts);
         return ReportBadFormat();
       }
-      if (Options[2] == 3) {
+      if (nOpts >= 2 && Options[2] == 3) {
         nOpts -= 2;
         need_vbtol = 1;
       }
@@ -251,9 +251,9 @@ bad_nOpts:
             return ReportBadLine(buf);
         }
         nOpts = Options[0];
-        if (nOpts < 3 || nOpts > 9)
+        if (nOpts < 0 || nOpts > 9)
           goto bad_nOpts;
-        if (Options[2] == 3) {
+        if (nOpts >= 2 && Options[2] == 3) {
           nOpts -= 2;
           need_vbtol = 1;
         }
